@@ -972,6 +972,33 @@ func runC05(c *lib.Ctx) {
 			}
 		}
 	}
+	// --- single-cause sweep, mixed-format cells: for the comparison family two floats of DIFFERENT
+	// formats (single, double, long-float) derived from the same grid integer — the nearest float of
+	// each format and its neighbours — in both orders: "across all real number types"
+	nMixed := 0
+	for _, op := range c05Ops {
+		if !op.isCmp() || op.maxArg != -1 {
+			continue
+		}
+		for _, g := range grid {
+			fs := c05FloatsNear(g.rat.Num())
+			for _, a := range fs {
+				for _, b := range fs {
+					if a.kind == b.kind {
+						continue
+					}
+					cases = append(cases, c05Case{op, []c05Operand{a, b}, true})
+					nMixed++
+				}
+			}
+		}
+		for _, pr := range [][2]c05Operand{{c05Double(0.1), c05Single(0.1)}, {c05Double(0.5), c05Single(0.5)}, {c05Double(1e-40), c05Single(1e-40)},
+			{c05Double(16777217), c05Single(16777216)}, {c05Double(3.4028234663852886e38), c05Single(3.4028234663852886e38)},
+			{c05Double(1.0000000000000002), c05Long(big.NewInt(1), 64)}, {c05Single(0.1), c05Long(big.NewInt(0), 64)}} {
+			cases = append(cases, c05Case{op, []c05Operand{pr[0], pr[1]}, true}, c05Case{op, []c05Operand{pr[1], pr[0]}, true})
+			nMixed += 2
+		}
+	}
 	// --- single-cause sweep, width-class ratio cells: ratios whose numerator and denominator come
 	// from every width class (small, 16, 31, 32, 33, 53, 63/64 bits; top heavy), in all ordered
 	// pairs with each other and with the width-class integers, for every two-argument operator on
@@ -1217,6 +1244,11 @@ func runC05(c *lib.Ctx) {
 			}
 			at := c.Rng.Intn(len(args) + 1)
 			args = append(args[:at], append([]c05Operand{f}, args[at:]...)...)
+			if c.Rng.Chance(30) {
+				// a second float derived from the same integer, possibly of another format
+				at = c.Rng.Intn(len(args) + 1)
+				args = append(args[:at], append([]c05Operand{fs[c.Rng.Intn(len(fs))]}, args[at:]...)...)
+			}
 			return c05Case{op, args, false}
 		}
 		for j := 0; j < n; j++ {
@@ -1355,18 +1387,6 @@ func runC05(c *lib.Ctx) {
 			if avoid.listed(cs) {
 				continue
 			}
-			if cs.hasFloat() {
-				// mixed float formats compared with each other are outside the quantifier
-				kinds := map[string]bool{}
-				for _, a := range cs.args {
-					if a.kind != "q" {
-						kinds[a.kind] = true
-					}
-				}
-				if len(kinds) > 1 {
-					continue
-				}
-			}
 			batch = append(batch, cs)
 		}
 		nGenerated += len(batch)
@@ -1380,6 +1400,7 @@ func runC05(c *lib.Ctx) {
 	c.Ev.Coverage["sweep_float_coupled_cases"] = nCoupled
 	c.Ev.Coverage["sweep_width_class_ratio_cases"] = nRatioCells
 	c.Ev.Coverage["sweep_representation_cases"] = nRepCells
+	c.Ev.Coverage["sweep_mixed_float_format_cases"] = nMixed
 	c.Ev.Coverage["triple_cases"] = nTriples
 	c.Ev.Coverage["random_cases"] = nRandom
 	c.Ev.Coverage["composite_cases_avoided_listed_construct"] = avoided
